@@ -28,6 +28,8 @@ LIMITS = {
     "alias": (10, 100, 50),
     # the plate is an instance of a user subclass of Labware that overrides a public hook (no composition tracking)
     "subclass": (10, 100, 50),
+    # every worklist operation runs inside the `with` block of a worklist that is bound to a file
+    "ctx": (10, 100, 50),
 }
 BULK = ("mid", "third", "dec_hi2", "empty")  # configurations with a 4 x 4 plate for calls that name 17 and more wells
 assert 0.6 + (1.7 - 0.6) > 1.7 and 32.02 + (100.2 - 32.02) > 100.2 and 0.39 - (0.39 - 0.1) < 0.1
@@ -114,8 +116,8 @@ class Harness(cm.BaseA):
                         dict(trough("S", 2, 2, mn, mx, [init, init]), np="float32" if name == "f32" else "int64"),
                     ],
                     "worklists": {
-                        "w": {"cls": "EvoWorklist", "max_volume": 4e6, "auto_split": True},
-                        "ws": {"cls": "FluentWorklist", "max_volume": max(mx, 1e-3) / 2.5, "auto_split": True},
+                        "w": dict({"cls": "EvoWorklist", "max_volume": 4e6, "auto_split": True}, **({"file": "w"} if name == "ctx" else {})),
+                        "ws": dict({"cls": "FluentWorklist", "max_volume": max(mx, 1e-3) / 2.5, "auto_split": True}, **({"file": "ws"} if name == "ctx" else {})),
                     },
                 }
             )
@@ -289,7 +291,7 @@ class Harness(cm.BaseA):
     def core_events(self, W, config):
         if W["rejected"] >= 2:
             return []
-        if config["limits"] in ("subclass", "i64", "tiny") and W.get("n", 0) >= 1 and getattr(self, "tier", "quick") == "quick":
+        if config["limits"] in ("subclass", "i64", "tiny", "ctx") and W.get("n", 0) >= 1 and getattr(self, "tier", "quick") == "quick":
             return []  # quick tier: these configurations are explored one level less deep
         return self.events(W, config, False)
 
@@ -325,7 +327,22 @@ class Harness(cm.BaseA):
         pre = {n: lw.volumes for n, lw in W["lw"].items()}
         prekey = self.canon(W, config)
         W["n"] = W.get("n", 0) + 1
-        out, exc = exec_event(W, ev)
+        if config["limits"] == "ctx" and ev[0] not in ("add", "remove", "caller_write"):
+            import os
+
+            wl = W["wl"][ev[1]]
+            try:
+                with wl:
+                    exec_event(W, ev, reraise=True)
+                out, exc = "ok", None
+            except Exception as e:
+                out, exc = f"raised:{type(e).__name__}", e
+            try:
+                os.unlink(wl.filepath)
+            except (OSError, TypeError):
+                pass
+        else:
+            out, exc = exec_event(W, ev)
         for wl in W["wl"].values():
             del wl[:]
         post = {n: lw.volumes for n, lw in W["lw"].items()}
